@@ -527,6 +527,10 @@ where
     #[cfg_attr(feature = "tracing", tracing::instrument(name = "Connection::event_loop", skip(self), fields(container_id = %self.connection.local_open().container_id)))]
     async fn event_loop(mut self, tx: oneshot::Sender<Result<(), Error>>) {
         let mut outcome = Ok(());
+        // Set once the session-frame channel has been closed and drained: a closed
+        // channel is always ready, and polling it again would spin this loop until
+        // the peer's close arrives
+        let mut outgoing_session_frames_done = false;
         loop {
             let result = tokio::select! {
                 _ = self.heartbeat.next() => self.on_heartbeat().await,
@@ -607,13 +611,14 @@ where
                         }
                     }
                 },
-                frame = self.outgoing_session_frames.recv() => {
+                frame = self.outgoing_session_frames.recv(), if !outgoing_session_frames_done => {
                     match frame {
                         Some(frame) => self.on_outgoing_session_frames(frame).await,
                         None => {
                             // Upon closing, the outgoing_session_frames channel will be closed
                             // first while the connection may still be waiting for remote
                             // close frame.
+                            outgoing_session_frames_done = true;
                             Ok(Running::Continue)
                         }
                     }
